@@ -34,6 +34,7 @@ def u1(ctx, entry_table, min_functions=1, extra_note=""):
                  "raise or under a flag no call site sets are NOTEs")
     ents = entries(ctx, entry_table)
     reach = ctx.cg.reachable(ents)
+    precise_reach = ctx.cg.reachable(ents, precise=True)
     r.require_count("U1", "reachable functions", len(reach), min_functions)
     nlive = 0
     for f in sorted(reach, key=lambda x: x.fq):
@@ -52,7 +53,14 @@ def u1(ctx, entry_table, min_functions=1, extra_note=""):
             seen.add((u.name, u.klass))
             where = loc(f, u.node)
             stmt = _enclosing_stmt(f, u.node)
-            if u.klass == "live":
+            if u.klass == "live" and f not in precise_reach:
+                r.note("U1", where, u.name,
+                       f"unbound name '{u.name}' in {f.qualname}: NameError "
+                       "when it runs, but the function is reachable from "
+                       "this property's entry points only through "
+                       "name-based dispatch on an unknown receiver "
+                       "(not attributed to this property)")
+            elif u.klass == "live":
                 nlive += 1
                 r.violation(
                     "U1", f"{f.fq}|{u.name}", where, norm_stmt(stmt)[:160],
@@ -60,7 +68,7 @@ def u1(ctx, entry_table, min_functions=1, extra_note=""):
                     f"enclosing scope, module, star-import or builtins -> "
                     f"NameError whenever this statement runs",
                     instance=f"{f.fq}:{u.name}",
-                    path=ctx.cg.path_to(reach, f))
+                    path=ctx.cg.path_to(precise_reach, f))
             else:
                 r.note("U1", where, u.name,
                        f"unbound name '{u.name}' in {f.qualname} is "
@@ -88,7 +96,7 @@ def u1(ctx, entry_table, min_functions=1, extra_note=""):
             where = loc(f, node)
             stmt = _enclosing_stmt(f, node)
             klass, why = ctx.ba.classify(f, node)
-            live = klass == "live" and (rule != "A1" or f in precise)
+            live = klass == "live" and f in precise
             if live:
                 r.violation(rule, f"{f.fq}|{name}", where,
                             norm_stmt(stmt)[:160], msg,
